@@ -225,7 +225,6 @@ func (r *condFormResult) compare(want func(val map[string]bool) string) []string
 	return diffs
 }
 
-
 // predicate helpers inside a decision region: `if r.hasTimedOut(rec)` stands for the helper's own decision. The helper
 // is a same-package function with a single boolean result whose body is loop-free; its branch conditions and returned
 // conditions are classified in the CALLER's names (parameters replaced by the arguments of the call).
